@@ -28,8 +28,13 @@ func CString(s string) *int8 {
 }
 
 func CBytes(b []byte) *int8 {
-	p := c.Malloc(uintptr(len(b)))
-	c.Memcpy(p, unsafe.Pointer(&b[0]), uintptr(len(b)))
+	n := uintptr(len(b))
+	if n == 0 {
+		// an empty slice has no first element; the result is still a valid pointer
+		return (*int8)(c.Malloc(1))
+	}
+	p := c.Malloc(n)
+	c.Memcpy(p, unsafe.Pointer(&b[0]), n)
 	return (*int8)(p)
 }
 
